@@ -163,7 +163,13 @@ func (s *UtxoStore) AddCredits(tx mwdb.DBTransaction, allBalances map[string]mas
 			return err
 		}
 		if addrV == nil || readAddressHeight(addrV) == 0 {
+			// remember whether the address was issued before this first payment (the record
+			// exists) or is only known through it, so that a rollback can restore that state
+			issued := addrV != nil
 			addrV = valueAddressRecord(addrRecord)
+			if !issued {
+				addrV = append(addrV, addressCreatedByCredit)
+			}
 			err = putRawAddressRecord(nsAddresses, addrK, addrV)
 			if err != nil {
 				return err
